@@ -206,7 +206,8 @@ def eval_iterator(case):
                     for m in itertools.chain.from_iterable(passes):
                         if plain:
                             # strand of a fragment: that of its R1, or the opposite of a lone R2's
-                            st_ = {(bool(r.is_reverse) if (r.is_read1 or not r.is_paired) else (not r.is_reverse)) for fr in m for r in fr if r is not None and not r.is_unmapped}
+                            # (a lone R2 keeps its read2 bit although the mate iterator clears its paired bit)
+                            st_ = {((not r.is_reverse) if r.is_read2 else bool(r.is_reverse)) for fr in m for r in fr if r is not None and not r.is_unmapped}
                             if len(st_) > 1:
                                 out.bad('iterator:plain:molecule-mixes-strands', 'reads %r' % [(r.query_name, r.flag, r.reference_name, r.reference_start) for fr in m for r in fr if r is not None][:6])
                         g = sorted({serial_of(r.query_name, spec['naming']) for fr in m for r in fr if r is not None})
